@@ -178,6 +178,7 @@ def _aggregate(check, tier, seed, outs, t0, home) -> int:  # noqa: ANN001, C901,
 
     # violations ---------------------------------------------------------------------------
     replay_dir = os.path.join(os.environ.get("VERIF_REPLAY_DIR") or os.path.join(home, "replay"), prop)
+    shutil.rmtree(replay_dir, ignore_errors=True)  # witnesses of earlier runs would be mistaken for current ones
     if fails:
         os.makedirs(replay_dir, exist_ok=True)
         seen_dig = set()
